@@ -86,6 +86,32 @@ def cases(tier, rng):
             steps.append(step(v, rand_real(rng), spd, paused))
         yield ('(ucond %s [%s])' % (c, ' '.join(steps)), 'random-' + name)
 
+def app_cases(tier, rng):
+    from scen import Ids, action, bind, spec, sop, spawn, frame, raw, scenario, key, mbutton, paxis, pad, PROBE, REBUILD, m_script
+    allc = [c for _, c in configs()] + [c for _, c in configs(rel=True)] + [c for _, c in configs(act=F(1, 4))]
+    for _ in range(1500 if tier == 'thorough' else 120):
+        ids = Ids()
+        L = rng.randint(8, 30)
+        acts = []
+        for j in range(rng.randint(1, 4)):
+            inp = rng.choice([key(j % 4), mbutton(j % 2), paxis(j % 2)])
+            level = rng.random() < .5
+            c = rng.choice(allc)
+            if level: acts.append(action(ids, aid(j % 4, j, False, False), [bind(ids, inp, [], [c])]))
+            else: acts.append(action(ids, aid(j % 4, j, False, False), [bind(ids, inp, [], [])], [], [c]))
+        cfg = {(0, 0): spec(acts)}
+        steps = [sop(spawn(0, [0])), frame(raw(pads=[pad(0)]))]
+        keys, speed, paused = set(), F(1), False
+        for i in range(L):
+            for k in range(4):
+                if rng.random() < .3: keys ^= {k}
+            if rng.random() < 0.15: speed = rng.choice(SPEEDS)
+            if rng.random() < 0.1: paused = not paused
+            steps.append(frame(raw(keys=keys, mbuttons=[k for k in range(2) if rng.random() < .4],
+                                   pads=[pad(0, [], [(a, rng.choice([F(0), F(1, 4), F(3, 4), F(-1)])) for a in range(2)])]), rand_real(rng), speed, paused))
+            if i == L // 2 and rng.random() < .2: steps.append(sop(REBUILD))
+        yield (scenario([0], [0], cfg, steps), 'bound-in-context')
+
 def nontrivial(case, out):
     return 'SFired' in out or 'SOngoing' in out
 
@@ -98,13 +124,17 @@ STAGES = [dict(name='cond', mode='unit', coq='Check.C11c', cases=cases, nontrivi
                     'random histories of length 5..40 with speed changes, pauses and real deltas beyond the 250 ms clamp. '
                     'non-trivial = some output is not None; distinct = distinct case text')]
 
+STAGES.append(dict(name='context', mode='app', coq='Check.C11w', cases=app_cases, nontrivial=nontrivial, shard=25,
+                   exhaustive={'thorough': False, 'quick': False},
+                   rule='the same conditions bound in a real context (input level or action level) on keys, mouse buttons and gamepad axes, 8-30 frames with speed changes, pauses, '
+                        'real deltas beyond the clamp and rebuilds; every evaluation recorded by the wrapper is compared with the history-based specification'))
 CLAUSES = {1: 'Press differs from "Fired iff actuated"', 2: 'JustPress differs from "Fired on the rising edge only"',
            3: 'Release differs from "Ongoing while actuated, Fired on the falling edge"',
            4: 'Hold differs from "Fired once actuated continuously for the hold time (once if one-shot), Ongoing before"',
            5: 'HoldAndRelease differs from "Ongoing while actuated; Fired on release iff held at least the hold time"',
            6: 'Tap differs from "Fired on release iff held at most the release time; Ongoing while held shorter"',
            7: 'Pulse differs from its interval/limit pattern', 8: 'a condition left None without the input having been actuated',
-           9: 'malformed output', 10: 'panic', 99: 'a timer became non-finite (NaN/inf)'}
+           9: 'malformed output', 10: 'panic', 18: 'panic', 19: 'malformed trace', 20: 'panic', 99: 'a timer became non-finite (NaN/inf)'}
 def describe(stage, clause): return CLAUSES.get(clause, 'clause %d' % clause)
 def matches_known(k, case, verdict): return False
 TRUSTED = TRUSTED_BASE
